@@ -114,23 +114,39 @@ func init() {
 				c.und("vote-decision", vd.fn, "", "anchor not found")
 				continue
 			}
-			site := findSite(f, "setStepAndSendPrevote")
-			if site == nil || len(site.Args()) < 2 {
+			// every prevote site of the rule; the value is voted either through a
+			// φ (nil | id) argument of one call or through separate calls
+			var sites []Site
+			for _, s := range findSites(f, "setStepAndSendPrevote") {
+				if len(s.Args()) >= 2 {
+					sites = append(sites, s)
+				}
+			}
+			if len(sites) == 0 {
 				c.und("vote-decision", vd.fn, p.Pos(fnPos(f)), "prevote call not found")
 				continue
 			}
-			phi, ok := site.Args()[1].(*ssa.Phi)
-			if !ok {
-				c.und("vote-decision", vd.fn, p.Pos(site.Pos()), "voted id is not a two-armed choice (nil | proposal id): "+term(site.Args()[1]))
-				continue
-			}
+			site := &sites[0]
 			b := &bform{p: p, visited: map[ssa.Value]bool{}}
 			var d dnf
-			for i, e := range phi.Edges {
-				if isNilConst(e) {
-					continue
+			for i := range sites {
+				s := sites[i]
+				at := p.mustHoldAt(s.Instr)
+				switch a := s.Args()[1].(type) {
+				case *ssa.Phi:
+					for i, e := range a.Edges {
+						if isNilConst(e) {
+							continue
+						}
+						d = dnfOr(d, dnfAnd(at, b.pathCond(a.Block().Preds[i], a.Block(), f, 0)))
+					}
+				default:
+					if isNilConst(a) {
+						continue
+					}
+					site = &sites[i]
+					d = dnfOr(d, at)
 				}
-				d = dnfOr(d, b.pathCond(phi.Block().Preds[i], phi.Block(), f, 0))
 			}
 			ok1, miss1 := everyDisjunctHas(d, []string{"$.Valid"})
 			ok2, miss2 := everyDisjunctHas(d, vd.alts...)
@@ -350,7 +366,7 @@ func c12Thresholds(c *Ctx) {
 		allInstrs(f, func(in ssa.Instruction) {
 			if st, ok := in.(*ssa.Store); ok {
 				if fa, ok := st.Addr.(*ssa.FieldAddr); ok && isNamed(fa.X.Type(), "consensus/votecounter", "VoteCounter") {
-					got[fieldName(fa.X.Type(), fa.Field)] = term(st.Val)
+					got[fieldName(fa.X.Type(), fa.Field)] = termInl(st.Val)
 				}
 			}
 		})
@@ -368,7 +384,16 @@ func c12Thresholds(c *Ctx) {
 			at := term(st.Addr)
 			if strings.Contains(at, "b.perVoteType[") {
 				n++
-				ok, miss := everyDisjunctHas(p.mustHoldAt(in), []string{"^!", "b.ballots[", "][voteType]"})
+				ok, miss := everyDisjunctHas(p.mustHoldAt(in), []string{"^!", "b.ballots[", "[voteType]"})
+				if !ok {
+					// the lookup may be hoisted into a local ballot variable: accept a dominating
+					// negative test of <value loaded from b.ballots[..]>[voteType]
+					for _, fct := range factsAt(in) {
+						if !fct.Pos && c12IsBallotKindTest(fct.Cond) {
+							ok = true
+						}
+					}
+				}
 				c.check(ok, "thresholds", "ballotSet.add: perVoteType", p.Pos(posOf(in, f)), "power counted only if this validator has not voted this kind yet", "voting power is added without the duplicate-ballot check: "+miss)
 			}
 			if strings.HasSuffix(at, "b.total") {
@@ -571,7 +596,7 @@ func c12LockAndThresholdWrites(c *Ctx) {
 			if fa, ok := st.Addr.(*ssa.FieldAddr); ok {
 				nm := fieldName(fa.X.Type(), fa.Field)
 				if nm == "totalVotingPower" || nm == "faultyVotingPower" || nm == "quorumVotingPower" {
-					got[nm] = term(st.Val)
+					got[nm] = termInl(st.Val)
 					d := p.mustHoldAt(in)
 					if !(len(d) == 1 && len(d[0]) == 0) && len(d) > 0 {
 						cond[nm] = true
@@ -585,4 +610,54 @@ func c12LockAndThresholdWrites(c *Ctx) {
 		want := map[string]string{"totalVotingPower": "TotalVotingPower(", "faultyVotingPower": "f(", "quorumVotingPower": "q("}[nm]
 		c.check(ok && !cond[nm] && strings.Contains(v, want) && (strings.Contains(v, "TotalVotingPower(") || strings.Contains(v, "totalVotingPower")), "thresholds-every-height", "StartNewHeight: "+nm, p.Pos(fnPos(f)), "recomputed unconditionally from the validator set of the new height", "StartNewHeight does not unconditionally recompute "+nm+" from the new height's total voting power (got "+v+fmt.Sprintf(", conditional=%v", cond[nm])+"): after the set changes and changes back the thresholds of another height stay in force and a minority can form a quorum")
 	}
+}
+
+
+// c12IsBallotKindTest: v reads element [voteType-typed index] of a ballot value
+// obtained from a lookup in the ballots map (directly, or through a local that
+// is only ever assigned such a lookup).
+func c12IsBallotKindTest(v ssa.Value) bool {
+	fromBallots := func(x ssa.Value) bool {
+		if e, ok := x.(*ssa.Extract); ok {
+			x = e.Tuple
+		}
+		l, ok := x.(*ssa.Lookup)
+		if !ok {
+			return false
+		}
+		ld, ok := l.X.(*ssa.UnOp)
+		if !ok {
+			return false
+		}
+		fa, ok := ld.X.(*ssa.FieldAddr)
+		return ok && fieldName(fa.X.Type(), fa.Field) == "ballots"
+	}
+	kindIdx := func(i ssa.Value) bool {
+		n := namedOf(i.Type())
+		return n != nil && n.Obj().Name() == "VoteType"
+	}
+	switch x := v.(type) {
+	case *ssa.Index:
+		return kindIdx(x.Index) && fromBallots(x.X)
+	case *ssa.UnOp:
+		ia, ok := x.X.(*ssa.IndexAddr)
+		if !ok || !kindIdx(ia.Index) {
+			return false
+		}
+		a, ok := ia.X.(*ssa.Alloc)
+		if !ok || a.Referrers() == nil {
+			return false
+		}
+		n := 0
+		for _, r := range *a.Referrers() {
+			if st, ok := r.(*ssa.Store); ok && st.Addr == ssa.Value(a) {
+				if !fromBallots(st.Val) {
+					return false
+				}
+				n++
+			}
+		}
+		return n > 0
+	}
+	return false
 }
